@@ -11,7 +11,7 @@ use std::borrow::Cow;
 macro_rules! harness {
     ($name:ident, $body:expr) => {
         #[kani::proof]
-        #[kani::unwind(13)]
+        #[kani::unwind(66)]
         #[kani::stub(crate::parser::parse_value, no_parse_value)]
         #[kani::stub(crate::de::from_slice, no_from_slice)]
         #[kani::stub(std::ptr::drop_in_place, noop_drop)]
@@ -311,3 +311,428 @@ harness!(c08_step_field, shapes6(|d| one_step(d, 2)));
 harness!(c08_step_index, shapes6(|d| one_step(d, 3)));
 harness!(c08_step_slice, shapes6(|d| one_step(d, 4)));
 harness!(c08_step_indexlist, shapes6(|d| one_step(d, 5)));
+
+// ---- two steps
+fn two_steps(d: &B, which: usize) {
+    let root = L::one(d.root);
+    let name = Name::of_len(1);
+    let i0 = any_index();
+    let (s1, s2, want) = match which {
+        // $.*[*]
+        0 => { let a = step_wild_dot(d, &root); (Path::DotWildcard, Path::BracketWildcard, step_wild_bracket(d, &a)) }
+        // $[*].name
+        1 => { let a = step_wild_bracket(d, &root); (Path::BracketWildcard, field(&name, 1), step_field(d, &a, &name)) }
+        // $["name"][i]
+        2 => { let a = step_field(d, &root, &name); let s = vec![ArrayIndex::Index(i0.clone())]; let w = step_indices(d, &a, &s); (field(&name, 2), Path::ArrayIndices(s), w) }
+        // $[*][*]
+        _ => { let a = step_wild_bracket(d, &root); (Path::BracketWildcard, Path::BracketWildcard, step_wild_bracket(d, &a)) }
+    };
+    let jp = JsonPath { paths: vec![Path::Root, s1, s2] };
+    check_all(d, &jp, &want);
+    kani::cover!(want.n >= 1, "some item");
+    core::mem::forget(jp);
+}
+//@ props: C08, C15
+//@ timeout: 1200
+//@ harness: c08_two_0, c08_two_1, c08_two_2, c08_two_3
+//@ desc: two steps after the root: `$.*[*]`, `$[*]:name`, `$["name"][i]`, `$[*][*]` on [[x],y], [x,{k:y},n], {"":x,k:[y]}, {a:{j:x},b:y,cc:null}: each step applies to every item produced by the previous one, in order
+//@ fns: Selector::select, Selector::find_positions, Selector::select_path, Selector::build_values
+//@ bounds: documents depth 2; two steps
+//@ stubs: parse_value, from_slice -> panic | drop_in_place -> no-op
+fn shapes4(f: impl Fn(&B)) {
+    split1(4, |k| with_shape([1, 2, 4, 8][k], (K_NUM, 2), (K_STR, 1), |d| f(d)));
+}
+harness!(c08_two_0, shapes4(|d| two_steps(d, 0)));
+harness!(c08_two_1, shapes4(|d| two_steps(d, 1)));
+harness!(c08_two_2, shapes4(|d| two_steps(d, 2)));
+harness!(c08_two_3, shapes4(|d| two_steps(d, 3)));
+
+// ---- filters
+fn any_num() -> Number {
+    any_number()
+}
+fn op_of(k: usize) -> BinaryOperator {
+    match k {
+        0 => BinaryOperator::Eq,
+        1 => BinaryOperator::NotEq,
+        2 => BinaryOperator::Lt,
+        3 => BinaryOperator::Lte,
+        4 => BinaryOperator::Gt,
+        _ => BinaryOperator::Gte,
+    }
+}
+fn holds(k: usize, o: Ordering) -> bool {
+    match k {
+        0 => o == Ordering::Equal,
+        1 => o != Ordering::Equal,
+        2 => o == Ordering::Less,
+        3 => o != Ordering::Greater,
+        4 => o == Ordering::Greater,
+        _ => o != Ordering::Less,
+    }
+}
+fn cur() -> Box<Expr<'static>> {
+    Box::new(Expr::Paths(vec![Path::Current]))
+}
+fn lit_num(n: &Number) -> Box<Expr<'static>> {
+    Box::new(Expr::Value(Box::new(PathValue::Number(n.clone()))))
+}
+fn cmp_expr<'a>(k: usize, l: Box<Expr<'a>>, r: Box<Expr<'a>>) -> Expr<'a> {
+    Expr::BinaryOp { op: op_of(k), left: l, right: r }
+}
+
+/// $[*]?(@ OP lit) on an array of numbers: keep exactly the elements e with e OP lit by numeric value
+fn filter_numbers(opk: usize, lit_left: bool) {
+    let d = B::build(&arr(&[leaf(K_NUM, 2), leaf(K_NUM, 9), leaf(K_NUM, 1)]));
+    let lit = any_num();
+    let root = d.node(d.root);
+    let mut want = L::new();
+    let mut i = 0;
+    while i < root.cnt {
+        let e = d.num(&d.node(root.kids[i]));
+        let o = if lit_left { lit.cmp(&e) } else { e.cmp(&lit) };
+        if holds(opk, o) {
+            want.push(root.kids[i]);
+        }
+        i += 1;
+    }
+    let e = if lit_left { cmp_expr(opk, lit_num(&lit), cur()) } else { cmp_expr(opk, cur(), lit_num(&lit)) };
+    let jp = JsonPath { paths: vec![Path::Root, Path::BracketWildcard, Path::FilterExpr(Box::new(e))] };
+    check_all(&d, &jp, &want);
+    kani::cover!(want.n == 1, "kept one, dropped others");
+    kani::cover!(want.n == 3, "kept all");
+    core::mem::forget(jp);
+}
+//@ props: C08, C15
+//@ timeout: 1800
+//@ harness: c08_filter_num_eq, c08_filter_num_ne, c08_filter_num_lt, c08_filter_num_le, c08_filter_num_gt, c08_filter_num_ge, c08_filter_num_litleft
+//@ desc: `$[*]?(@ OP lit)` for each of the six comparison operators (and `lit OP @`) on an array of three numbers of encoded widths 2, 9 and 1 with an arbitrary number literal (any representation and value): exactly the elements whose numeric value satisfies the comparison are kept, in order (numbers by Number::cmp, proved exact in C18)
+//@ fns: Selector::select, Selector::filter_expr, Selector::convert_expr_val, Selector::compare, Selector::compare_value, PathValue::partial_cmp, Selector::build_values
+//@ bounds: 3 elements; literal unbounded
+//@ stubs: parse_value, from_slice -> panic | drop_in_place -> no-op
+harness!(c08_filter_num_eq, filter_numbers(0, false));
+harness!(c08_filter_num_ne, filter_numbers(1, false));
+harness!(c08_filter_num_lt, filter_numbers(2, false));
+harness!(c08_filter_num_le, filter_numbers(3, false));
+harness!(c08_filter_num_gt, filter_numbers(4, false));
+harness!(c08_filter_num_ge, filter_numbers(5, false));
+harness!(c08_filter_num_litleft, filter_numbers(2, true));
+
+fn lit_str(n: &Name) -> Box<Expr<'_>> {
+    Box::new(Expr::Value(Box::new(PathValue::String(Cow::Borrowed(n.as_str())))))
+}
+/// $[*]?(@ OP "lit") on an array of strings (lengths 1, 2, 0) and a nested array (never a scalar operand)
+fn filter_strings(opk: usize) {
+    let d = B::build(&arr(&[leaf(K_STR, 1), leaf(K_STR, 2), arr(&[leaf(K_STR, 1)]), leaf(K_STR, 0)]));
+    let lit = Name::of_len(1);
+    let root = d.node(d.root);
+    let mut want = L::new();
+    let mut i = 0;
+    while i < root.cnt {
+        let e = d.node(root.kids[i]);
+        if e.kind == K_STR {
+            let mut lb = [0u8; CAP];
+            lb[0] = lit.b[0];
+            let o = cmp_at(&d.b, e.off, e.len, &lb, 0, 1);
+            if holds(opk, o) {
+                want.push(root.kids[i]);
+            }
+        }
+        i += 1;
+    }
+    let e = cmp_expr(opk, cur(), lit_str(&lit));
+    let jp = JsonPath { paths: vec![Path::Root, Path::BracketWildcard, Path::FilterExpr(Box::new(e))] };
+    check_all(&d, &jp, &want);
+    kani::cover!(want.n == 2, "kept two");
+    core::mem::forget(jp);
+}
+//@ props: C08, C15
+//@ timeout: 1800
+//@ harness: c08_filter_str_eq, c08_filter_str_lt, c08_filter_str_ge
+//@ desc: `$[*]?(@ OP "s")` on ["a","bc",["d"],""] with a symbolic 1-byte literal: strings compare bytewise (shorter prefix first); a container element offers no operand value and is dropped
+//@ fns: Selector::filter_expr, Selector::convert_expr_val, Selector::compare_value, PathValue::partial_cmp
+//@ bounds: 4 elements, strings <= 2 bytes
+//@ stubs: parse_value, from_slice -> panic | drop_in_place -> no-op
+harness!(c08_filter_str_eq, filter_strings(0));
+harness!(c08_filter_str_lt, filter_strings(2));
+harness!(c08_filter_str_ge, filter_strings(5));
+
+/// objects in an array filtered on a member: $[*]?(@.k OP lit), with &&, || and exists
+fn filter_members(which: usize) {
+    // [{k:n2, j:s1}, {k:n9}, n1]; key k has length 1, j length 2
+    let d = B::build(&arr(&[obj(&[1, 2], &[leaf(K_NUM, 2), leaf(K_STR, 1)]), obj(&[1], &[leaf(K_NUM, 9)]), leaf(K_NUM, 1)]));
+    let root = d.node(d.root);
+    let name = Name::of_len(1);
+    let (l1, l2) = (any_num(), any_num());
+    let member = |id: usize| -> Option<Number> {
+        let x = d.node(id);
+        if x.kind != K_OBJ {
+            return None;
+        }
+        let mut r = None;
+        let mut i = 0;
+        while i < x.cnt {
+            if name.eq_key(&d, x.koff[i], x.klen[i]) && d.node(x.kids[i]).kind == K_NUM {
+                r = Some(d.num(&d.node(x.kids[i])));
+            }
+            i += 1;
+        }
+        r
+    };
+    let has_member = |id: usize| -> bool {
+        let x = d.node(id);
+        let mut r = false;
+        if x.kind == K_OBJ {
+            let mut i = 0;
+            while i < x.cnt {
+                if name.eq_key(&d, x.koff[i], x.klen[i]) {
+                    r = true;
+                }
+                i += 1;
+            }
+        }
+        r
+    };
+    let at_k = || Box::new(Expr::Paths(vec![Path::Current, Path::DotField(Cow::Borrowed(name.as_str()))]));
+    let mut want = L::new();
+    let mut i = 0;
+    while i < root.cnt {
+        let id = root.kids[i];
+        let m = member(id);
+        let keep = match which {
+            0 => m.map_or(false, |v| v.cmp(&l1) == Ordering::Greater),
+            1 => m.clone().map_or(false, |v| v.cmp(&l1) == Ordering::Greater) && m.map_or(false, |v| v.cmp(&l2) == Ordering::Less),
+            2 => m.clone().map_or(false, |v| v.cmp(&l1) == Ordering::Equal) || m.map_or(false, |v| v.cmp(&l2) == Ordering::Equal),
+            _ => has_member(id),
+        };
+        if keep {
+            want.push(id);
+        }
+        i += 1;
+    }
+    let e = match which {
+        0 => cmp_expr(4, at_k(), lit_num(&l1)),
+        1 => Expr::BinaryOp { op: BinaryOperator::And, left: Box::new(cmp_expr(4, at_k(), lit_num(&l1))), right: Box::new(cmp_expr(2, at_k(), lit_num(&l2))) },
+        2 => Expr::BinaryOp { op: BinaryOperator::Or, left: Box::new(cmp_expr(0, at_k(), lit_num(&l1))), right: Box::new(cmp_expr(0, at_k(), lit_num(&l2))) },
+        _ => Expr::FilterFunc(FilterFunc::Exists(vec![Path::Current, Path::DotField(Cow::Borrowed(name.as_str()))])),
+    };
+    let jp = JsonPath { paths: vec![Path::Root, Path::BracketWildcard, Path::FilterExpr(Box::new(e))] };
+    check_all(&d, &jp, &want);
+    kani::cover!(want.n == 1, "kept one");
+    kani::cover!(want.n == 2, "kept two");
+    core::mem::forget(jp);
+}
+//@ props: C08, C15
+//@ timeout: 1800
+//@ harness: c08_filter_member_gt, c08_filter_member_and, c08_filter_member_or, c08_filter_member_exists
+//@ desc: `$[*]?(@.k > l)`, `?(@.k > l1 && @.k < l2)`, `?(@.k == l1 || @.k == l2)`, `?(exists(@.k))` on [{k:n,jj:s},{k':n'},n''] with a symbolic member name and arbitrary number literals: an item is kept when its member value satisfies the expression; items without the member, and non-objects, are dropped
+//@ fns: Selector::filter_expr, Selector::eval_exists, Selector::convert_expr_val, Selector::select_by_name, Selector::compare
+//@ bounds: 3 elements
+//@ stubs: parse_value, from_slice -> panic | drop_in_place -> no-op
+harness!(c08_filter_member_gt, filter_members(0));
+harness!(c08_filter_member_and, filter_members(1));
+harness!(c08_filter_member_or, filter_members(2));
+harness!(c08_filter_member_exists, filter_members(3));
+
+/// operands that are paths on both sides: root-relative operand and several values per side
+fn filter_paths(which: usize) {
+    // {a:[n2,n9], b:[n1,n2]} with key lengths 1 and 2 (names fixed by length)
+    let d = B::build(&obj(&[1, 2], &[arr(&[leaf(K_NUM, 2), leaf(K_NUM, 9)]), arr(&[leaf(K_NUM, 1), leaf(K_NUM, 2)])]));
+    let root = d.node(d.root);
+    let (ka, kb) = (d.keyb(d.root, 0), d.keyb(d.root, 1));
+    let na = Name { b: ka.b, len: ka.n };
+    let nb = Name { b: kb.b, len: kb.n };
+    let (a, b) = (d.node(root.kids[0]), d.node(root.kids[1]));
+    let num = |id: usize| d.num(&d.node(id));
+    let fa = Path::DotField(Cow::Borrowed(na.as_str()));
+    let fb = Path::DotField(Cow::Borrowed(nb.as_str()));
+    let (jp, want) = match which {
+        // $.a[*]?(@ == $.b[*]): elements of a equal to SOME element of b
+        0 => {
+            let mut w = L::new();
+            let mut i = 0;
+            while i < a.cnt {
+                let mut any = false;
+                let mut j = 0;
+                while j < b.cnt {
+                    if num(a.kids[i]).cmp(&num(b.kids[j])) == Ordering::Equal {
+                        any = true;
+                    }
+                    j += 1;
+                }
+                if any {
+                    w.push(a.kids[i]);
+                }
+                i += 1;
+            }
+            let e = cmp_expr(0, cur(), Box::new(Expr::Paths(vec![Path::Root, fb.clone(), Path::BracketWildcard])));
+            (JsonPath { paths: vec![Path::Root, fa.clone(), Path::BracketWildcard, Path::FilterExpr(Box::new(e))] }, w)
+        }
+        // $?(@.a[*] < @.b[*]): the root is kept when SOME pair (x in a, y in b) has x < y
+        _ => {
+            let mut any = false;
+            let mut i = 0;
+            while i < a.cnt {
+                let mut j = 0;
+                while j < b.cnt {
+                    if num(a.kids[i]).cmp(&num(b.kids[j])) == Ordering::Less {
+                        any = true;
+                    }
+                    j += 1;
+                }
+                i += 1;
+            }
+            let mut w = L::new();
+            if any {
+                w.push(d.root);
+            }
+            let l = Box::new(Expr::Paths(vec![Path::Current, fa.clone(), Path::BracketWildcard]));
+            let r = Box::new(Expr::Paths(vec![Path::Current, fb.clone(), Path::BracketWildcard]));
+            (JsonPath { paths: vec![Path::Root, Path::FilterExpr(Box::new(cmp_expr(2, l, r)))] }, w)
+        }
+    };
+    check_all(&d, &jp, &want);
+    kani::cover!(want.n >= 1, "kept");
+    kani::cover!(want.n == 0, "dropped");
+    core::mem::forget(jp);
+}
+//@ props: C08, C15
+//@ timeout: 1800
+//@ harness: c08_filter_rootrel, c08_filter_values_values
+//@ desc: path operands on both sides on {a:[n,n'],bb:[m,m']}: `$.a[*]?(@ == $.bb[*])` (comparison against the root) keeps the elements equal to some element of bb; `$?(@.a[*] < @.bb[*])` keeps the root when SOME pair of operand values satisfies the comparison (all four pairs matter)
+//@ fns: Selector::filter_expr, Selector::convert_expr_val, Selector::compare
+//@ bounds: 2x2 operand values
+//@ stubs: parse_value, from_slice -> panic | drop_in_place -> no-op
+harness!(c08_filter_rootrel, filter_paths(0));
+harness!(c08_filter_values_values, filter_paths(1));
+
+/// stand-alone predicate `$[*] OP lit`: one boolean in every mode; exists true; predicate_match agrees
+fn predicate(opk: usize) {
+    let d = B::build(&arr(&[leaf(K_NUM, 2), leaf(K_NUM, 9)]));
+    let lit = any_num();
+    let root = d.node(d.root);
+    let mut any = false;
+    let mut i = 0;
+    while i < root.cnt {
+        if holds(opk, d.num(&d.node(root.kids[i])).cmp(&lit)) {
+            any = true;
+        }
+        i += 1;
+    }
+    let l = Box::new(Expr::Paths(vec![Path::Root, Path::BracketWildcard]));
+    let jp = JsonPath { paths: vec![Path::Predicate(Box::new(cmp_expr(opk, l, lit_num(&lit))))] };
+    let want: [u8; 8] = [0x20, 0, 0, 0, if any { 0x40 } else { 0x30 }, 0, 0, 0];
+    let mut m = 0;
+    while m < 4 {
+        let mode = match m { 0 => Mode::All, 1 => Mode::First, 2 => Mode::Array, _ => Mode::Mixed };
+        let (data, _offs) = run(&d, &jp, mode);
+        assert!(data.len() == 8, "a predicate path yields one boolean document");
+        let mut k = 0;
+        while k < 8 {
+            assert!(data[k] == want[k], "every mode returns the single boolean the predicate denotes");
+            k += 1;
+        }
+        core::mem::forget(data);
+        m += 1;
+    }
+    let sel = Selector::new(jp.clone(), Mode::First);
+    assert!(sel.predicate_match(d.bytes()) == Ok(any), "predicate_match reports the same boolean");
+    assert!(sel.exists(d.bytes()) == Ok(true), "existence is true for a predicate path");
+    kani::cover!(any, "predicate true");
+    kani::cover!(!any, "predicate false");
+    core::mem::forget(sel);
+    core::mem::forget(jp);
+}
+//@ props: C08, C15
+//@ timeout: 1200
+//@ harness: c08_predicate_gt, c08_predicate_eq
+//@ desc: stand-alone predicates `$[*] > l` and `$[*] == l` on [n,n'] with an arbitrary number literal: all four modes return the single boolean, predicate_match reports it, exists is true
+//@ fns: Selector::select, Selector::build_predicate_result, Selector::predicate_match, Selector::exists, Selector::filter_expr
+//@ bounds: 2 elements
+//@ stubs: parse_value, from_slice -> panic | drop_in_place -> no-op
+harness!(c08_predicate_gt, predicate(4));
+harness!(c08_predicate_eq, predicate(0));
+
+/// array-mode / mixed-mode against all-mode, and a filter followed by a further step
+fn modes(which: usize) {
+    match which {
+        0 => shapes4(|d| {
+            let want = step_wild_bracket(d, &L::one(d.root));
+            let jp = JsonPath { paths: vec![Path::Root, Path::BracketWildcard] };
+            check_array_mixed(d, &jp, &want);
+            core::mem::forget(jp);
+        }),
+        1 => shapes4(|d| {
+            let want = step_wild_dot(d, &L::one(d.root));
+            let jp = JsonPath { paths: vec![Path::Root, Path::DotWildcard] };
+            check_array_mixed(d, &jp, &want);
+            core::mem::forget(jp);
+        }),
+        _ => {
+            // $[*]?(@.k >= l).jj on [{k:n},{k:n',jj:s},{k:n'',jj:s'}]: first-mode must be the first all-mode item
+            let d = B::build(&arr(&[obj(&[1], &[leaf(K_NUM, 2)]), obj(&[1, 2], &[leaf(K_NUM, 2), leaf(K_STR, 1)]), obj(&[1, 2], &[leaf(K_NUM, 9), leaf(K_STR, 2)])]));
+            let root = d.node(d.root);
+            let lit = any_num();
+            let k0 = d.keyb(root.kids[0], 0);
+            let nk = Name { b: k0.b, len: 1 };
+            let j1 = d.keyb(root.kids[1], 1);
+            let nj = Name { b: j1.b, len: 2 };
+            let mut want = L::new();
+            let mut i = 0;
+            while i < root.cnt {
+                let x = d.node(root.kids[i]);
+                let mut keep = false;
+                let mut jj = None;
+                let mut m = 0;
+                while m < x.cnt {
+                    if nk.eq_key(&d, x.koff[m], x.klen[m]) && d.num(&d.node(x.kids[m])).cmp(&lit) != Ordering::Less {
+                        keep = true;
+                    }
+                    if nj.eq_key(&d, x.koff[m], x.klen[m]) {
+                        jj = Some(x.kids[m]);
+                    }
+                    m += 1;
+                }
+                if keep {
+                    if let Some(id) = jj {
+                        want.push(id);
+                    }
+                }
+                i += 1;
+            }
+            let e = cmp_expr(5, Box::new(Expr::Paths(vec![Path::Current, Path::DotField(Cow::Borrowed(nk.as_str()))])), lit_num(&lit));
+            let jp = JsonPath { paths: vec![Path::Root, Path::BracketWildcard, Path::FilterExpr(Box::new(e)), Path::DotField(Cow::Borrowed(nj.as_str()))] };
+            check_all(&d, &jp, &want);
+            kani::cover!(want.n == 2, "two items after the filter and the further step");
+            kani::cover!(want.n == 1, "one item");
+            core::mem::forget(jp);
+        }
+    }
+}
+//@ props: C08, C15
+//@ timeout: 1800
+//@ harness: c15_modes_brwild, c15_modes_dotwild, c15_filter_then_step
+//@ desc: array-mode returns one array holding exactly the all-mode items, mixed-mode equals array-mode for two or more items and all-mode otherwise (`$[*]` and `$.*` on four shapes); `$[*]?(@.k >= l).jj` (a filter followed by a further step): all-mode items, and first-mode = the first of them even when the first element passing the filter has no `jj`
+//@ fns: Selector::select, Selector::build_scalar_array, Selector::build_values, Selector::find_positions
+//@ bounds: <= 3 items
+//@ stubs: parse_value, from_slice -> panic | drop_in_place -> no-op
+harness!(c15_modes_brwild, modes(0));
+harness!(c15_modes_dotwild, modes(1));
+harness!(c15_filter_then_step, modes(2));
+
+//@ props: C08, C15
+//@ timeout: 300
+//@ expect: twin
+//@ desc: vacuity twin: `$[*]` on a 2-element array claimed to select nothing — must be refuted
+//@ fns: Selector::select
+#[kani::proof]
+#[kani::unwind(66)]
+#[kani::stub(crate::parser::parse_value, no_parse_value)]
+#[kani::stub(crate::de::from_slice, no_from_slice)]
+#[kani::stub(std::ptr::drop_in_place, noop_drop)]
+fn c08_twin_must_fail() {
+    let d = B::build(&arr(&[leaf(K_NUM, 2), leaf(K_STR, 1)]));
+    let jp = JsonPath { paths: vec![Path::Root, Path::BracketWildcard] };
+    let (_data, offs) = run(&d, &jp, Mode::All);
+    assert!(offs.is_empty(), "TWIN: deliberately false");
+}
